@@ -190,17 +190,22 @@ def faultSafe (s : Step) (d : Option Dep) (o : StepOut) : Bool :=
   (if s.fault = .get then o.res == .err && o.writes == 0 else true) &&
   (if s.fault = .write ∧ o.res = .ok then o.writes == 0 else true)
 
+/-- nothing of the rollout is left on the Deployment but (possibly) the in-progress annotation, which the
+    Rollout controller owns -/
+def released (d : Dep) : Bool :=
+  d.stratAnno == .absent && !d.paused && !d.extraStatus && !d.ctrlLabel && d.stableRev == "" && d.control == .none
+
 /-- C06 **full strength**: a call that returns ok has its effect.  After `Initialize` the Deployment is under
     rollout control.  After `Finalize` of a paused Deployment the control-info is gone and, with
-    `batchPartition = nil`, so are the strategy annotation and the pause; a Deployment its user has un-paused is
-    left alone.  (`UpgradeBatch`: `upgradeSuffices`.) -/
+    `batchPartition = nil`, so are the strategy annotation, the extra-status annotation, both labels and the pause;
+    a Deployment its user has un-paused is left alone.  (`UpgradeBatch`: `upgradeSuffices`.) -/
 def okHasEffect (s : Step) (d : Option Dep) (o : StepOut) : Bool :=
   if o.res = .ok then
     match s.call, d, o.dep with
     | .initialize, some _, some d' => isUnderRolloutControl d'
     | .initialize, _, _ => false
     | .finalize, some d, some d' =>
-      if d.paused then d'.control == .none && (!s.bpNil || (d'.stratAnno == .absent && !d'.paused)) else d' == d
+      if d.paused then d'.control == .none && (!s.bpNil || released d') else d' == d
     | .finalize, none, none => true
     | .finalize, _, _ => false
     | _, _, _ => true
